@@ -1,6 +1,6 @@
 """C15 CPU kinds."""
 from prog import *
-import effects, flags, exh, guards, must, threads
+import effects, flags, exh, guards, must, threads, tailzero
 
 
 def run(chk, tier):
@@ -46,7 +46,12 @@ def run(chk, tier):
     chk.inst("R-OBLIG", r, "restrict-kinds", ok, "hwloc_topology_restrict calls hwloc_internal_cpukinds_restrict exactly when NO_CPUKINDS is unset, whatever the restrict flags (%s)" % why)
     rk = P.need_func("hwloc_internal_cpukinds_restrict", "cpukinds.c")
     chk.inst("R-OBLIG", rk, "rank-after-removal", any(True for c in rk.calls("hwloc_internal_cpukinds_rank")), "removing a kind is followed by a re-ranking")
-    chk.decided += ["non-zero flags, NULL and empty cpusets rejected with EINVAL", "get_by_cpuset: index / EXDEV / ENOENT for each inclusion outcome",
+    chk.rule("R-TAILZERO", "zero-tail discipline of the kinds array: the grower zero-fills new slots and registration appends infos into the slot at the count in place, "
+             "so every function that lowers nr_cpukinds while keeping the array zeroes the vacated slot on every path (may-dataflow from the decrement to the exit)")
+    nz = tailzero.run(chk, P, only_arrays=("cpukinds",), min_arrays=1)
+    chk.floor("R-TAILZERO", "count-lowering sites", nz, 5)
+    chk.decided += ["a kind removed by restrict leaves no stale infos/cpuset pointers for the next registration to reuse (register after restrict)",
+                    "non-zero flags, NULL and empty cpusets rejected with EINVAL", "get_by_cpuset: index / EXDEV / ENOENT for each inclusion outcome",
                     "register splits on INTERSECTS/INCLUDED, merges on CONTAINS/EQUAL, skips DIFFERENT; split removes the intersection from both sides",
                     "restrict always restricts the kinds; ranks recomputed after register/removal", "info pairs accumulate without exact duplicates"]
     chk.undecided += ["that kinds partition the registered union for a given history (value)", "efficiency values vs forced efficiencies"]
